@@ -1,5 +1,6 @@
 """Structural rules on the Python layer: R-PATH instances (C12-C16), R-TAB (encoder/decoder tables), R-EFF (Python),
 R-SAN (contiguity before raw pointers)."""
+import os
 from ..cfront import AnalysisError
 from ..ir import fmt, walk_stmts, walk_expr, stmt_exprs, dotted, sub_blocks, orient
 from ..model import calls_in
@@ -177,8 +178,20 @@ def rule_dba_py(ctx, m):
     for s, c in _calls(loop.body, lambda d: d in ('dtw_cc.dba', 'dtw_cc.dba_ndim')):
         n += 1
         a1 = c[2][1] if len(c[2]) > 1 else None
-        cp = [st for st in walk_stmts(loop.body) if st.k == 'assign' and st.target == a1 and st.line < s.line]
-        okc = okc and a1 is not None and a1 != ('var', 'c') and bool(cp) and cp[-1].value == ('call', ('attr', ('var', 'c'), 'copy'), (), ())
+        # every definition of the argument inside the iteration is a fresh copy of the running average (one definition per branch is fine; a branch that
+        # hands over `c` itself lets the C routine overwrite the caller's series the initial average may alias)
+        cp = [st for st in walk_stmts(loop.body) if st.k == 'assign' and st.target == a1]
+
+        def fresh(v):
+            if v == ('call', ('attr', ('var', 'c'), 'copy'), (), ()):
+                return True
+            if v[0] == 'call' and (dotted(v[1]) or '').split('.')[-1] in ('array', 'copy', 'ascontiguousarray_copy') and len(v[2]) >= 1 and v[2][0] == ('var', 'c') \
+                    and not any(k_ == 'copy' and a_ == ('bool', False) for k_, a_ in v[3]) and (dotted(v[1]) or '').split('.')[-1] != 'asarray':
+                return True
+            if v[0] == 'cond':
+                return fresh(v[2]) and fresh(v[3])
+            return False
+        okc = okc and a1 is not None and a1 != ('var', 'c') and bool(cp) and all(fresh(st.value) for st in cp)
     ctx.check(okc and n == 2, 'R-EFF', file, 'dba_loop', 'copy before in-place C update',
               'the C routine overwrites its `c` argument: it must receive a fresh `c.copy()` made in the same iteration, never `c` itself', loop.line)
     # R-TAB: packbits bit order matches bit_test (byte i/8, bit 1 << (i%8))
@@ -2003,3 +2016,146 @@ def rule_lc_window_mask(ctx, m):
                       'a match that runs there is never returned' % (N, M, W, d, 'masked' if st == 'mask' else 'in the state the previous search left',
                                                                      (' (`%s`)' % fmt(which[3].target)[:40]) if which else ''),
                       which[3].line if which else None, facts={'witness': {'rows': N, 'cols': M, 'window': W, 'diagonal': d}})
+
+
+# ================================================================================================= per-call state of the model objects (history independence)
+HISTORY_METHODS = {
+    'C16': [('dtaidistance.clustering.kmeans', 'KMeans.fit')],
+    'C15': [('dtaidistance.clustering.hierarchical', 'Hierarchical.fit'), ('dtaidistance.clustering.hierarchical', 'HierarchicalTree.fit'),
+            ('dtaidistance.clustering.hierarchical', 'LinkageTree.fit')],
+    'C13': [('dtaidistance.subsequence.subsequencealignment', 'SubsequenceAlignment.align')],
+    'C18': [('dtaidistance.subsequence.localconcurrences', 'LocalConcurrences.align')],
+}
+HISTORY_METHODS['C20'] = [x for k in ('C16', 'C15', 'C13', 'C18') for x in HISTORY_METHODS[k]]
+
+
+def rule_call_history(ctx, m, targets):
+    """A `fit` / `align` call computes its result from its arguments and the object's configuration, not from what an earlier call on the same object left behind.
+    (a) definite assignment: an attribute `self.X` that the method itself assigns is per-call state; every read of it inside the method must be preceded, on every
+        path from the entry of the method, by an assignment made in this call (if/else joins intersect, a loop body may run zero times, `while True` leaves through
+        its breaks).  A read that some path reaches without such an assignment sees the value of the previous call.
+    (b) no conditional cache of a mutable attribute: `self.D.setdefault(key, <expression over self.Y>)` writes only when the key is absent -- a second call keeps the
+        value derived from the old self.Y although self.Y may have been changed in between (by the user or by a wrapping class).
+    SubsequenceSearch.align keeps a result cache by design and is decided by its own rules (rule_subseq_search)."""
+    n = 0
+    for mname, q in targets:
+        mod = m.py(mname)
+        f = mod.funcs.get(q)
+        if f is None:
+            raise AnalysisError('anchor vanished: %s.%s' % (mname, q))
+        n += 1
+        W = set()
+        for s in walk_stmts(f.body):
+            if s.k == 'assign':
+                for t in (s.target[1] if s.target[0] == 'tuple' else [s.target]):
+                    if t[0] == 'attr' and t[1] == ('var', 'self'):
+                        W.add(t[2])
+        bad = []
+
+        def reads(e, D, s):
+            if e is None or not isinstance(e, tuple):
+                return
+            # `self.X is None` / `is not None` asks whether X has been computed at all (compute-once results that `reset()` clears): not a use of the old value
+            memo = {x[2] if x[3] == ('none',) else x[3] for x in walk_expr(e) if x[0] == 'bin' and x[1] in ('is', 'isnot', '==', '!=') and ('none',) in (x[2], x[3])}
+            for x in walk_expr(e):
+                if x[0] == 'attr' and x[1] == ('var', 'self') and x[2] in W and x[2] not in D and x not in memo:
+                    bad.append((x[2], s))
+
+        def flow(stmts, D, brk):
+            """-> set of attributes assigned on every path that falls through, or None when no path falls through"""
+            D = set(D)
+            for s in stmts:
+                if s.k == 'assign':
+                    reads(s.value, D, s)
+                    tgts = s.target[1] if s.target[0] == 'tuple' else [s.target]
+                    for t in tgts:
+                        if t[0] == 'attr' and t[1] == ('var', 'self'):
+                            if s.d.get('aug'):
+                                reads(t, D, s)
+                            D.add(t[2])
+                        else:
+                            for k_, sub in enumerate(t[1:]):
+                                reads(sub, D, s)
+                elif s.k == 'if':
+                    reads(s.cond, D, s)
+                    a, b = flow(s.then, D, brk), flow(s.els or [], D, brk)
+                    if a is None and b is None:
+                        return None
+                    D = a if b is None else (b if a is None else (a & b))
+                elif s.k in ('for', 'foreach', 'while'):
+                    for e in stmt_exprs(s):
+                        reads(e, D, s)
+                    inner = []
+                    flow(s.body, D, inner)
+                    forever = s.k == 'while' and s.cond in (('bool', True), ('num', 1))
+                    if forever:
+                        if not inner:
+                            return None
+                        out = None
+                        for d_ in inner:
+                            out = set(d_) if out is None else (out & d_)
+                        D = out
+                    # otherwise the body may run zero times: nothing is added
+                    if s.d.get('orelse'):
+                        r = flow(s.orelse, D, brk)
+                        D = D if r is None else r
+                elif s.k in ('return', 'raise'):
+                    reads(s.value, D, s)
+                    return None
+                elif s.k == 'break':
+                    brk.append(set(D))
+                    return None
+                elif s.k == 'continue':
+                    return None
+                elif s.k == 'try':
+                    a = flow(s.body, D, brk)
+                    outs = [a] if a is not None else []
+                    for h in s.handlers:
+                        r = flow(h[2], D, brk)
+                        if r is not None:
+                            outs.append(r)
+                    if not outs:
+                        return None
+                    D2 = outs[0]
+                    for o in outs[1:]:
+                        D2 = D2 & o
+                    D = D2
+                    if s.d.get('final'):
+                        r = flow(s.final, D, brk)
+                        if r is None:
+                            return None
+                        D = r
+                elif s.k == 'with':
+                    for a_, b_ in s.items:
+                        reads(a_, D, s)
+                    r = flow(s.body, D, brk)
+                    if r is None:
+                        return None
+                    D = r
+                elif s.k in ('def', 'class'):
+                    continue
+                else:
+                    for e in stmt_exprs(s):
+                        reads(e, D, s)
+            return D
+        flow(f.body, set(), [])
+        seen = set()
+        for attr, s in bad:
+            if attr in seen:
+                continue
+            seen.add(attr)
+            ctx.violation('R-PATH', mod.path, q, 'per-call state self.%s' % attr,
+                          '`self.%s` is assigned by %s itself, but the read at line %s is reached by a path on which this call has not assigned it yet: the value '
+                          'left by an earlier call on the same object decides what this call does' % (attr, q.split('.')[-1], s.line), s.line)
+        for attr in sorted(W - seen):
+            ctx.held('R-PATH', '%s:%s:per-call state self.%s' % (os.path.basename(mod.path), q, attr))
+        # (b)
+        for s in walk_stmts(f.body):
+            for e in stmt_exprs(s):
+                for x in walk_expr(e):
+                    if x[0] == 'call' and x[1][0] == 'attr' and x[1][2] == 'setdefault' and x[1][1][0] == 'attr' and x[1][1][1] == ('var', 'self') and len(x[2]) == 2:
+                        dep = sorted({y[2] for y in walk_expr(x[2][1]) if y[0] == 'attr' and y[1] == ('var', 'self')})
+                        ctx.check(not dep, 'R-PATH', mod.path, q, 'conditional cache self.%s[%s]' % (x[1][1][2], fmt(x[2][0])),
+                                  '`self.%s.setdefault(%s, ..)` stores a value derived from self.%s only when the key is absent: a later call keeps the old value although '
+                                  'self.%s may have changed since (set by the user or reset by a wrapping class)' % (x[1][1][2], fmt(x[2][0]), ', self.'.join(dep), ', self.'.join(dep)), s.line)
+    ctx.count('methods checked for per-call state', n)
